@@ -30,6 +30,7 @@ mod im;
 mod pins;
 mod round3;
 mod round4;
+mod round5;
 mod misc;
 mod netaddr;
 mod seqs;
@@ -277,6 +278,7 @@ fn main() {
     misc::run(&mut cx);
     round3::run(&mut cx);
     round4::run(&mut cx);
+    round5::run(&mut cx);
     pins::run(&mut cx);
     let js = |v: &Vec<(String, String)>| -> String {
         v.iter().map(|(n, d)| format!("{{\"contract\": {}, \"detail\": {}}}", json_str(n), json_str(d))).collect::<Vec<_>>().join(", ")
